@@ -188,6 +188,10 @@ impl Seek for Dest {
         let e = s.epoch;
         if s.should_fail() {
             s.ops.push((e, Op::Failed('s')));
+            if s.fault.interrupted_flush {
+                // (the flag covers seeks as well: nothing retries an interrupted seek)
+                return Err(io::Error::new(io::ErrorKind::Interrupted, "verif: injected interrupted seek"));
+            }
             return Err(injected_kind(s.fault.error_kind));
         }
         let np = match p {
